@@ -671,6 +671,72 @@ impl Message<PartitionSyncResponse> for PartitionReplicatorActor {
     }
 }
 
+/// Verification hooks (compiled only with `--cfg sierradb_verif`): observe the replicator's
+/// buffering state and run the gap detection on demand.
+#[cfg(sierradb_verif)]
+pub mod verif {
+    use super::*;
+
+    /// Snapshot of the replicator's buffering state.
+    #[derive(Clone, Debug, Reply)]
+    pub struct BufferState {
+        pub next: u64,
+        /// `(key, transaction id, events, reply senders)` in key order
+        pub buffered: Vec<(u64, uuid::Uuid, usize, usize)>,
+        pub catching_up: bool,
+    }
+
+    /// Replies with the current [`BufferState`].
+    pub struct Probe;
+
+    /// Runs `detect_and_handle_gaps` once, then replies with the [`BufferState`].
+    pub struct DetectGaps;
+
+    impl PartitionReplicatorActor {
+        fn verif_state(&self) -> BufferState {
+            BufferState {
+                next: *self.buffered_writes.next(),
+                buffered: self
+                    .buffered_writes
+                    .queue
+                    .map
+                    .iter()
+                    .map(|(key, write)| {
+                        (
+                            *key,
+                            write.tx.transaction_id(),
+                            write.tx.events().len(),
+                            write.reply_senders.len(),
+                        )
+                    })
+                    .collect(),
+                catching_up: self.catching_up,
+            }
+        }
+    }
+
+    impl Message<Probe> for PartitionReplicatorActor {
+        type Reply = BufferState;
+
+        async fn handle(&mut self, _: Probe, _ctx: &mut Context<Self, Self::Reply>) -> Self::Reply {
+            self.verif_state()
+        }
+    }
+
+    impl Message<DetectGaps> for PartitionReplicatorActor {
+        type Reply = BufferState;
+
+        async fn handle(
+            &mut self,
+            _: DetectGaps,
+            ctx: &mut Context<Self, Self::Reply>,
+        ) -> Self::Reply {
+            self.detect_and_handle_gaps(&ctx.actor_ref().downgrade());
+            self.verif_state()
+        }
+    }
+}
+
 // #[cfg(test)]
 // mod tests {
 //     use std::{
